@@ -108,11 +108,12 @@ def cases(tier, rng):
     for h in ([f"f{M64}"], ["wa1", f"f{M64}"], [f"s{1 << 62}"], [f"f{1 << 40}"]):
         yield Case(f"!wr.dyn {','.join(h)}", tag="dynamic-huge", check=lambda out: None if out.startswith("err") or ":" in out else f"unexpected {out}")
     # prefix types narrower than the container
-    for w, lim in ((1, 255), (2, 65535)):
-        for n in (0, 1, lim - 1, lim, lim + 1, lim + 2, 2 * lim + 1):
+    for w, sg, lim in ((1, 0, 255), (2, 0, 65535), (1, 1, 127), (2, 1, 32767)):
+        for n in (0, 1, lim - 1, lim, lim + 1, lim + 2, 2 * lim + 1, 2 * lim + 2, 200, 40000):
             exp = show(n.to_bytes(w, "little") + b"x" * n) if n <= lim else "err:0"
-            yield Case(f"wr.prefixed {w} {n}", expect=exp, tag=f"prefix-u{8*w}")
-    yield Case("wr.prefixed 4 70000", expect=show((70000).to_bytes(4, "little") + b"x" * 70000), tag="prefix-u32")
+            yield Case(f"wr.prefixed {w} {n} {sg}", expect=exp, tag=f"prefix-{'i' if sg else 'u'}{8*w}")
+    yield Case("wr.prefixed 4 70000 0", expect=show((70000).to_bytes(4, "little") + b"x" * 70000), tag="prefix-u32")
+    yield Case("wr.prefixed 4 70000 1", expect=show((70000).to_bytes(4, "little") + b"x" * 70000), tag="prefix-i32")
     # stream copies: every (length, chunk, start, backend)
     for L in range(0, 11):
         data = bytes(0x30 + i for i in range(L))
